@@ -95,7 +95,9 @@ class PreconditionsParser:
                 continue
 
             if precondition_node[0] == EQUALITY_OPERATOR:
-                if isinstance(precondition_node[1], List):
+                if isinstance(precondition_node[1], List) or isinstance(
+                    precondition_node[2], List
+                ):
                     self.logger.debug("Found numeric equality precondition")
                     numeric_precondition = NumericalExpressionTree(
                         construct_expression_tree(precondition_node, domain_functions)
